@@ -36,6 +36,13 @@ PARAMS = ["amp", "xo", "yo", "sx", "sy", "theta"]
 
 
 MUTANTS = [
+    ("geometry recomputed only when xo or sx vary", "AegeanTools/fitting.py",
+     "        # precompute for speed\n        sint = np.sin(np.radians(theta))\n"
+     "        cost = np.cos(np.radians(theta))\n",
+     "        # precompute for speed\n"
+     "        if pars[prefix + 'xo'].vary or pars[prefix + 'sx'].vary:\n"
+     "            sint = np.sin(np.radians(theta))\n"
+     "        cost = np.cos(np.radians(theta))\n", "C04-R11"),
     ("amplitude row carries the sign of the amplitude",
      "AegeanTools/fitting.py",
      "            dmds = model / amp\n",
@@ -191,6 +198,7 @@ def run(ctx):
     fit, wrapper, jac, dfun_call = find_roles(prog)
     ctx.note("roles: Dfun wrapper=%s analytic jacobian=%s" %
              (wrapper.short, jac.short))
+    r11_no_carried_state(ctx, prog, jac)
     r1(ctx, prog, fit, jac)
     r3(ctx, prog, fit, jac)
     r4_r5(ctx, prog, fit, wrapper)
@@ -835,3 +843,28 @@ def r10_noise(ctx, prog):
                       "by the noisiest region elsewhere" % norm(e, 60),
                       node=c)
     ctx.floor("C04-R10", n, 2, "covar_errors calls with a noise level")
+
+
+def r11_no_carried_state(ctx, prog, jac):
+    """each component's rows are built from that component's own values"""
+    from ..core import loop_carried
+    ctx.rule("C04-R11", "no state is carried from one component to the next: "
+             "in the component loops of the analytic Jacobian and of the "
+             "error assignment every local that is read has been assigned "
+             "earlier in the SAME iteration on every path (counters updated "
+             "in place excepted) -- otherwise a component whose guard is "
+             "false is differentiated with its neighbour's geometry")
+    n = 0
+    for fi in (jac, prog.func("fitting.covar_errors")):
+        for lp in walk_no_nested(fi.node):
+            if not isinstance(lp, (ast.For, ast.While)):
+                continue
+            n += 1
+            lc = loop_carried(lp)
+            names = sorted({nm for nm, _ in lc})
+            ctx.check("C04-R11", fi, "component loop of %s at line-order "
+                      "position %d" % (fi.short, n), not lc,
+                      "%s may still hold the value computed for the previous "
+                      "component (assigned only under a condition in this "
+                      "iteration)" % names, node=lc[0][1] if lc else lp)
+    ctx.floor("C04-R11", n, 2, "component loops examined")
